@@ -249,6 +249,29 @@ pub fn run(ctx: &mut Ctx, _replay: Option<&[String]>) {
             nat_list(&input.iter().map(|&b| b as usize).collect::<Vec<_>>())), &out, words >= 1,
             &[if pattern.is_some() { "encode-punctured" } else { "encode-unpunctured" }, if extra > 0 { "trailing-partial-word" } else { "whole-words-only" }]);
     }
+    // encode through the CLI with a DVB-S2 normal-frame matrix (tens of thousands of parity bits): the staircase part of H is invertible, so the
+    // word written must be the one codeword whose leading bits are the input word — judged here by the parity checks themselves
+    {
+        let code = if ctx.thorough { ldpc_toolbox::codes::dvbs2::Code::R1_4 } else { ldpc_toolbox::codes::dvbs2::Code::R1_3 };
+        let h = code.h();
+        let (n, kk) = (h.num_cols(), h.num_cols() - h.num_rows());
+        let input: Vec<u8> = (0..2 * kk + 5).map(|_| rng.below(2) as u8).collect();
+        let (ap, ip, op) = (format!("{}/encbig.alist", dir), format!("{}/encbig.in", dir), format!("{}/encbig.out", dir));
+        std::fs::write(&ap, h.alist()).unwrap();
+        std::fs::write(&ip, &input).unwrap();
+        let o = run_bin(&bin, &["encode", ap.as_str(), ip.as_str(), op.as_str()]);
+        let out = std::fs::read(&op).unwrap_or_default();
+        let mut good = !o.status_nonzero && out.len() == 2 * n && out.iter().all(|&b| b <= 1);
+        if good {
+            for w in 0..2 {
+                let cw = &out[w * n..(w + 1) * n];
+                good &= cw[..kk] == input[w * kk..(w + 1) * kk];
+                good &= (0..h.num_rows()).all(|r| h.iter_row(r).filter(|&&c| cw[c] == 1).count() % 2 == 0);
+            }
+        }
+        ctx.emit("c20 same encode-dvbs2-normal-frame", if good { "equal" } else { "DIFFERENT" }, true, &["encode-large-staircase"]);
+        let _ = std::fs::remove_file(&ap); let _ = std::fs::remove_file(&op);
+    }
     // ---------------------------------------------------------------- invalid inputs: non-zero exit, message, no panic
     // 3 columns x 2 rows, column 3 names row 3 (> nrows, <= ncols): must be a clean error (defect D2)
     let rowidx = format!("{}/rowidx.alist", dir);
